@@ -202,6 +202,24 @@ int main(int argc, char** argv) {
             else ++accepted;
         }
     }
+    {   // grammar 3b, the same sweep with an empty rule at the bottom of the recursion: the empty rule's value is the one created when the value
+        // stack is exactly as deep as the input is long (at 1024, 2048, ... its creation is what makes the stack reallocate)
+        static constexpr nterm<std::string> re("re");
+        static const auto e = parser(re, terms('a', 'b'), nterms(re), rules(
+            re() >= []() { return std::string("$"); },
+            re('a', re) >= [](char c, std::string&& rest) { rest.push_back(c); return std::move(rest); },
+            re('b', re) >= [](char c, std::string&& rest) { rest.push_back(c); return std::move(rest); }));
+        for (size_t len : {0u, 1u, 2u, 7u, 1022u, 1023u, 1024u, 1025u, 2047u, 2048u, 2049u, 4096u, 4097u, 65535u, 65536u, 65537u, 70001u}) {
+            std::string in; for (size_t i = 0; i < len; ++i) in += ((i * 7 + i / 3) % 5 < 2) ? 'b' : 'a';
+            std::string want = "$" + std::string(in.rbegin(), in.rend());
+            ++cases; ++checks;
+            std::optional<std::string> r; std::string thrown;
+            try { r = e.parse(string_buffer(std::string(in))); } catch (const std::exception& ex) { thrown = ex.what(); }
+            if (!thrown.empty()) { ++fails; if (first.empty()) first = "deep right recursion ending in an empty rule, " + std::to_string(len) + " tokens: parse threw " + thrown; }
+            else if (!r || *r != want) { ++fails; if (first.empty()) first = "deep right recursion ending in an empty rule, " + std::to_string(len) + " tokens: the functors did not receive their own children's values (result differs from '$' + the reversed input)"; }
+            else ++accepted;
+        }
+    }
     {   // grammar 9: every input up to length 6 over {x, y}, each on a freshly built parser
         std::vector<std::string> in9{""}; for (size_t lo = 0, l = 0; l < 6; ++l) { size_t hi = in9.size(); for (size_t i = lo; i < hi; ++i) for (char c : {'x', 'y'}) in9.push_back(in9[i] + c); lo = hi; }
         for (const std::string& in : in9) {
